@@ -24,7 +24,7 @@ IDS = ('Water', 'Ethanol', 'Octanol', 'Methanol', 'O2', 'Glucose')
 
 
 def required(tier):
-    return ['mix_and_split', 'moisture', 'partition', 'partition:stale-outlets', 'partition:forced', 'phase_fraction', 'phase_split', 'chemical_splits', 'material_balance', 'vle-wrapper', 'lle-wrapper']
+    return ['mix_and_split', 'moisture', 'partition', 'partition:stale-outlets', 'partition:forced', 'phase_fraction', 'phase_split', 'chemical_splits', 'material_balance', 'material_balance:lstsq', 'moisture:strict=False:short', 'vle-wrapper', 'lle-wrapper']
 
 
 def arr(s): return s.mol.to_array() if hasattr(s.mol, 'to_array') else np.asarray(s.mol, float)
@@ -53,6 +53,7 @@ def gen_case(rng):
     elif t == 'moisture':
         c['ret'] = gflows(rng, n); c['perm'] = gflows(rng, n); c['mc'] = round(rng.uniform(0.02, 0.95), 4)
         c['enough'] = rng.random() < 0.85
+        c['strict'] = rng.choice([None, None, True, False])
     elif t in ('partition', 'phase_fraction'):
         c['feed'] = gflows(rng, n, pzero=0.15)
         k = rng.randrange(1, 5)
@@ -76,6 +77,7 @@ def gen_case(rng):
         c['cin'] = [gflows(rng, n, 0.4, -1, 1) for _ in range(rng.randrange(0, 3))]
         c['x'] = [round(rng.uniform(0.2, 5), 4) for _ in range(k)]       # true scale factors: the outlet is built from them
         c['extra_out'] = gflows(rng, n, 0.5, -1, 1)
+        c['is_exact'] = rng.random() < 0.7; c['nout'] = rng.choice([1, 1, 2])
     elif t == 'vle':
         c['feed'] = [round(10 ** rng.uniform(0, 2), 3), round(10 ** rng.uniform(0, 2), 3), 0.0, round(10 ** rng.uniform(-1, 2), 3) if rng.random() < 0.6 else 0.0, rng.choice([0.0, 0.05]), 0.0]
         c['spec'] = rng.choice([{'V': round(rng.uniform(0.1, 0.9), 3), 'P': 101325.}, {'T': round(rng.uniform(350, 370), 2), 'P': 101325.}, {'V': round(rng.uniform(0.1, 0.9), 3), 'T': round(rng.uniform(330, 360), 2)}])
@@ -129,7 +131,9 @@ def run_case(case, rec):
                         need = dry * mc / (1 - mc) - ret.imass['Water']
                         if perm.imass['Water'] < need: perm.imass['Water'] = need * 1.5 + 1.0
                     before = [arr(ret).copy(), arr(perm).copy()]
-                    run = lambda: sep.adjust_moisture_content(ret, perm, mc)
+                    strict = case.get('strict')
+                    run = (lambda: sep.adjust_moisture_content(ret, perm, mc)) if strict is None else (lambda: sep.adjust_moisture_content(ret, perm, mc, strict=strict))
+                    if strict is False: rec.hit('moisture:strict=False')
                 else:
                     ins = [mk(th, f) for f in case['ins']]; ret, perm = outlet(0), outlet(1)
                     before = [arr(i).copy() for i in ins]
@@ -142,6 +146,9 @@ def run_case(case, rec):
                 balance(rec, 'moisture', tag if t == 'mixmoist' else 'adjust', before, [arr(ret), arr(perm)], t)
                 Fm = ret.F_mass
                 dry = Fm - ret.imass['Water']
+                if t == 'moisture' and case.get('strict') is False and not case['enough'] and perm.imol['Water'] == 0:
+                    # not enough water and infeasibility not reported: the balance and the signs (judged above) are all that can be asked
+                    rec.hit('moisture:strict=False:short'); rec.mark_nontrivial(case_hash(case)); return
                 if dry > 0:
                     got = ret.imass['Water'] / Fm
                     rec.check(abs(got - mc) <= 1e-9, 'moisture', 'target', f'{t}: retentate moisture fraction {got!r} != requested {mc}', residual=abs(got - mc))
@@ -223,11 +230,16 @@ def run_case(case, rec):
                 if abs(np.linalg.det(A)) < 1e-6 * np.abs(A).max() ** k or np.linalg.cond(A) > 1e6:
                     rec.refuse('singular / ill-conditioned inlet matrix (excluded by the quantifier)'); return
                 out = sum(x * arr(v) for x, v in zip(case['x'], var)) + (sum(arr(c) for c in cin) if cin else 0)
-                outs = [mk(th, list(out))]
-                sep.material_balance(tuple(ids[i] for i in case['ids']), var, cin, outs)
+                nout = case.get('nout', 1)
+                outs = [mk(th, list(out / nout)) for _ in range(nout)]        # the same total leaving through one or two constant outlets
+                if case.get('is_exact', True): sep.material_balance(tuple(ids[i] for i in case['ids']), var, cin, outs)
+                else:
+                    rec.hit('material_balance:lstsq')
+                    sep.material_balance(tuple(ids[i] for i in case['ids']), var, cin, outs, is_exact=False)
                 tot_in = sum(arr(v) for v in var) + (sum(arr(c) for c in cin) if cin else 0)
-                res = np.abs(tot_in - arr(outs[0]))[case['ids']]
-                scale = max(np.abs(arr(outs[0])).max(), 1e-300)
+                tot_out = sum(arr(o) for o in outs)
+                res = np.abs(tot_in - tot_out)[case['ids']]
+                scale = max(np.abs(tot_out).max(), 1e-300)
                 rec.check(bool(np.all(res <= 1e-9 * scale)), 'material_balance', 'residual', f'inlets minus outlets on the chosen chemicals: {res.tolist()} (scale {scale})', residual=float(res.max() / scale))
                 fac = [float(arr(v).sum() / np.array(f).sum()) for v, f in zip(var, case['var'])]
                 rec.check(np.allclose(fac, case['x'], rtol=1e-8), 'material_balance', 'scale-factors', f'recovered scale factors {fac} != true {case["x"]}')
